@@ -215,6 +215,10 @@ func (its *PushPullHandler) process(retCh chan *model.PushPullPack) {
 
 	its.logInitialConditions()
 
+	if its.err = its.rollbackInterruptedCommit(); its.err != nil {
+		return
+	}
+
 	if its.err = its.pushOperations(); its.err != nil {
 		return
 	}
@@ -265,6 +269,27 @@ func (its *PushPullHandler) commitToMongoDB() errors.OrdaError {
 	// 	}
 	// 	its.ctx.L().Infof("commit CheckPoint with %s", its.currentCP.String())
 	// }
+	return nil
+}
+
+// rollbackInterruptedCommit removes the operations stored beyond the recorded end of the log.
+// A commit is two writes: the operations are inserted first, then the datatype document (end of the
+// log, checkpoints) is updated. If the database or the server fails in between - or in the middle of
+// the insert - operations are left beyond the recorded end. They were never acknowledged, so the
+// pusher still has them and pushes them again; but unless they are removed first, that push hands out
+// the same sseq again and fails with a duplicate key on every later attempt, and pullers could see a
+// transaction that was stored only in part.
+func (its *PushPullHandler) rollbackInterruptedCommit() errors.OrdaError {
+	if its.datatypeDoc == nil {
+		return nil
+	}
+	deleted, err := its.managers.Mongo.DeleteOperationsAfter(its.ctx, its.DUID, its.datatypeDoc.Sseq.End)
+	if err != nil {
+		return errors.PushPullAbortionOfServer.New(its.ctx.L(), err.Error())
+	}
+	if deleted > 0 {
+		its.ctx.L().Warnf("removed %d operations beyond the recorded end of the log (%d)", deleted, its.datatypeDoc.Sseq.End)
+	}
 	return nil
 }
 
